@@ -566,6 +566,29 @@ func min(a, b int) int {
 // paths whose unsynchronised access is a recorded known finding; the set of
 // function pairs that fire varies from run to run, the families do not. Every
 // other pair (mempool, blockchain, p2p, database, ...) keeps its exact signature.
+// c40TwoMutexPair: the recorded dpos/state finding is about data reachable under two different mutexes —
+// one access inside an *Arbiters method (Arbiters.mtx) and the other inside a *State method (State.mtx), or
+// a getter on a live *Producer pointer (no lock at all) against a *State change closure. Two accesses that
+// are both inside *State methods are NOT that finding (State.mtx should serialise them).
+func c40TwoMutexPair(x, y string) bool {
+	kind := func(fn string) string {
+		switch {
+		case strings.HasPrefix(fn, "dpos/state.(*Arbiters)."):
+			return "arbiters"
+		case strings.HasPrefix(fn, "dpos/state.(*State)."):
+			return "state"
+		case strings.HasPrefix(fn, "dpos/state.(*Producer)."):
+			return "producer"
+		}
+		return "other"
+	}
+	kx, ky := kind(x), kind(y)
+	if kx == "state" && ky == "state" {
+		return false
+	}
+	return kx != "other" && ky != "other"
+}
+
 func c40RaceFamily(raw string) string {
 	parts := strings.SplitN(raw, "|", 2)
 	if len(parts) != 2 {
@@ -596,7 +619,7 @@ func c40RaceFamily(raw string) string {
 		return "race:family:rpc-handlers-read-consensus-state-unlocked"
 	case (valid(a) && state(b)) || (valid(b) && state(a)):
 		return "race:family:tx-validators-read-consensus-state-unlocked"
-	case a == "dpos/state" && b == "dpos/state":
+	case a == "dpos/state" && b == "dpos/state" && c40TwoMutexPair(parts[0], parts[1]):
 		return "race:family:dpos-state-two-mutexes"
 	case state(a) && state(b):
 		return "race:family:cr-member-fields-written-without-committee-lock"
